@@ -252,6 +252,7 @@ func (s *SpecValidator) validateDuplicatePropertyNames() *Result {
 			for _, v := range dups {
 				pns = append(pns, v.Definition+"."+v.Name)
 			}
+			sort.Strings(pns) // duplicates are collected in map iteration order: keep the message stable
 			res.AddErrors(duplicatePropertiesMsg(k, pns))
 		}
 
